@@ -3,7 +3,7 @@ Line-protocol engine `outside` (C14, C15).  Cluster: 0 = A (receiver under test)
 2 = R (relay), 3 = X (reaches A only through R).
 
 ops
-  reset <base> <accept_recv_error> <send_recv_error>          -> `ok 1`
+  reset <base> <accept_recv_error> <send_recv_error> [pref]   -> `ok 1 xr=0`   (pref: A's preferred_ranges: none|relay|peer|other|all)
   pkt <kind> <src> <scope> <mut…>                              -> digest difference at the receiver
       kind : msg | testreq | testrep | close | ctrl (B -> A) | rmsg (X -> R -> A) | fwd (X -> R, receiver R)
       src  : own | other | mynet        (underlay source address the datagram is injected from)
@@ -12,7 +12,7 @@ ops
       mut  : none | replay | flipbody <permille> <bit> | trunc <len> | settype t | setver v | setsub s |
              setres v | setidx <B|R|X|rB|relay|zero|unknown> | ctr <delta>
   recverr <idxsym> <src>                                       -> digest difference at A
-  hsdup <src> <relay|flip>                                     -> digest difference at A: after the relayed tunnel X-A
+  hsdup <src> <relay|flip|direct> [X|B]                        -> digest difference at A: after the relayed tunnel X-A
       completed, the relay hands A the stage-0 handshake packet of X once more in a fresh relay frame
       (byte-identical, or with one bit flipped)
   reply                                                        -> digest difference at A when its tun emits a packet for X
@@ -27,6 +27,7 @@ is not a replay.
 import Nebula.Driver.Common
 import Nebula.Model.Outside
 import Nebula.Spec.Outside
+import Nebula.Model.ViaRemote
 
 namespace Nebula.Driver.Outside
 open Nebula.Driver Nebula.Outside Nebula.Gen
@@ -39,12 +40,20 @@ structure St where
   accept : Bool := true
   sendErr : Bool := true
   ready : Bool := false
+  pref : String := "none"                      -- A's preferred_ranges configuration
+  bRelayTo : Bool := false                     -- A's hostinfo for B already lists R in relayState.relays
+  xGhost : Bool := false                       -- X's tunnel was closed at A and then re-created from the re-delivered stage-0 (X itself still uses the old one)
+  xPending : Bool := false                     -- A has a pending handshake for X
+  recDis : Bool := false                       -- the Terminal relay record on A's tunnel with R is Disestablished
+  front : List (Nat × String) := []            -- (receiver*10+peer) ↦ most recently learned underlay address (default "own")
+  lhRoam : Bool := false                       -- the last op's roaming changed the learned-address list
   deriving Repr
 
 def lookupS (l : List (Nat × String)) (k : Nat) : Option String := (l.find? (·.1 == k)).map (·.2)
 def setS (l : List (Nat × String)) (k : Nat) (v : String) : List (Nat × String) := (k, v) :: l.filter (·.1 != k)
 
 def St.curOf (s : St) (rx p : Nat) : String := (lookupS s.cur (rx * 10 + p)).getD "own"
+def St.frontOf (s : St) (rx p : Nat) : String := (lookupS s.front (rx * 10 + p)).getD "own"
 
 structure SymHdr where
   ver : Nat := 1
@@ -88,7 +97,8 @@ def replyNode (s : St) (rx p : Nat) : String :=
   else if s.curOf rx p == "own" then toString p else "-1"
 
 def render (s : St) (rx sender : Nat) (src : String) (effs : List Effect) (rsPeers : List String)
-    (extraOut : List String := []) (extraUsed : Nat := 0) : String :=
+    (extraOut : List String := []) (extraUsed : Nat := 0) (extraDel : List String := []) (forceLh : Bool := false)
+    (pend : Bool := false) : String :=
   let tun := (effs.filter (fun e => match e with | .deliver _ => true | _ => false)).length
   let out := effs.filterMap (fun e => match e with
     | .testReply p => some ((if rx == 0 && p == 3 then "1/1>" else "4/1>") ++ replyNode s rx p)
@@ -104,8 +114,9 @@ def render (s : St) (rx sender : Nat) (src : String) (effs : List Effect) (rsPee
   let inn := effs.filterMap (fun e => match e with | .markIn p => some (peerName p) | _ => none)
   let inn := inn.filter (fun p => !del.contains p)
   let used := (effs.filter (fun e => match e with | .relayUsed _ => true | .forward _ _ => true | _ => false)).length
-  let lh := !roam.isEmpty || !del.isEmpty
-  s!"tun={tun} out={setStr (sortStr out)} del={setStr (sortStr (dedup del))} roam={setStr (sortStr roam)} in={setStr (sortStr (dedup inn))} win={setStr (sortStr (dedup inn))} rs={setStr rsPeers} lh={boolStr lh} pend=0 used={used + extraUsed} seen=0 xr=0"
+  let lh := (!roam.isEmpty && s.lhRoam) || !del.isEmpty || forceLh
+  let del := del ++ extraDel
+  s!"tun={tun} out={setStr (sortStr out)} del={setStr (sortStr (dedup del))} roam={setStr (sortStr roam)} in={setStr (sortStr (dedup inn))} win={setStr (sortStr (dedup inn))} rs={setStr rsPeers} lh={boolStr lh} pend={boolStr pend} used={used + extraUsed} seen=0 xr=0"
 
 /-- lookups of one level at receiver `rx`. `own` = the peer whose tunnel sealed this level. -/
 def mkLook (s : St) (rx : Nat) (relayedLevel : Bool) (src : String) (h base : SymHdr) (own : Nat)
@@ -116,7 +127,8 @@ def mkLook (s : St) (rx : Nat) (relayedLevel : Bool) (src : String) (h base : Sy
       if isRelayMsg then (if h.idx == "relay" && s.live.contains 2 then some 2 else none)
       else if h.idx == "B" && s.live.contains 1 then some 1
       else if h.idx == "R" && s.live.contains 2 then some 2
-      else if h.idx == "X" && s.live.contains 3 then some 3
+      else if h.idx == "X" && s.xGhost && own == 3 && base.idx == "X" then none   -- X's own packets still carry the old index
+      else if h.idx == "X" && (s.live.contains 3 || s.xGhost) then some 3
       else none
     else
       if isRelayMsg && h.idx == "rfwd" then some 3 else none
@@ -143,17 +155,20 @@ def kindInfo : String → Option (Nat × Nat × SymHdr × Option SymHdr)
   | "close" => some (0, 1, { type := 5, sub := 0, idx := "B" }, none)
   | "ctrl" => some (0, 1, { type := 6, sub := 0, idx := "B" }, none)
   | "rmsg" => some (0, 2, { type := 1, sub := 1, idx := "relay" }, some { type := 1, sub := 0, idx := "X" })
+  | "rclose" => some (0, 2, { type := 1, sub := 1, idx := "relay" }, some { type := 5, sub := 0, idx := "X" })
   | "fwd" => some (2, 3, { type := 1, sub := 1, idx := "rfwd" }, none)
   | _ => none
 
 /-- apply the state changes the effects imply. -/
 def advance (s : St) (rx : Nat) (src : String) (effs : List Effect) : St :=
   effs.foldl (fun s e => match e with
-    | .roam p => { s with lastRoam := setS s.lastRoam (rx * 10 + p) (s.curOf rx p), cur := setS s.cur (rx * 10 + p) src }
-    | .close p => if rx == 0 then { s with live := s.live.filter (· != p) } else s
+    | .roam p => { s with lastRoam := setS s.lastRoam (rx * 10 + p) (s.curOf rx p), cur := setS s.cur (rx * 10 + p) src,
+                          -- SetRemote → LearnRemote: the learned list changes unless this address is already its head
+                          lhRoam := s.lhRoam || s.frontOf rx p != src, front := setS s.front (rx * 10 + p) src }
+    | .close p => if rx == 0 then { s with live := s.live.filter (· != p), recDis := s.recDis || p == 3 } else s
     | .recvErrorClose p => if rx == 0 then { s with live := s.live.filter (· != p) } else s
     | .control _ => { s with ctrlDone := true }
-    | _ => s) s
+    | _ => s) { s with lhRoam := false }
 
 /-- property oracle on the implementation's answer: when no level of the datagram is authentic, the
 receiver's state must not change and nothing may be delivered or sent, except a recv_error reply
@@ -176,12 +191,12 @@ def noEffectVerdict (impl : String) (allowRecvErrReply : Bool) : String :=
 arrived through a relay (`ViaSender{IsRelayed}`: roaming, handshake retransmits, LearnRemote, handshake
 completion) must never make A record an underlay address for X, and whatever A emits while only traffic
 for X is in flight must be a Message/Relay frame (`1/1`), never a bare packet. -/
-def relayOnlyVerdict (impl : String) (onlyRelayFrames : Bool) : String :=
+def relayOnlyVerdict (impl : String) (onlyRelayFrames : Bool) (noRoam : List String := ["X"]) : String :=
   let toks := impl.splitOn " "
   let get (k : String) : String := ((toks.find? (·.startsWith (k ++ "="))).getD (k ++ "=?")).drop (k.length + 1) |>.toString
   if onlyRelayFrames && get "out" != "-" && !(((get "out").splitOn ",").all (·.startsWith "1/1>")) then
     "bad e2e-packet-left-relay-tunnel"
-  else if get "xr" == "1" || ((get "roam").splitOn ",").contains "X" then "bad relayed-via-recorded-as-remote"
+  else if get "xr" == "1" || ((get "roam").splitOn ",").any (noRoam.contains ·) then "bad relayed-via-recorded-as-remote"
   else "ok"
 
 def andVerdict (a b : String) : String := if a == "ok" then b else a
@@ -190,7 +205,7 @@ def evalPkt (s : St) (kind src scope : String) (mutArgs : List String) (impl : S
   match kindInfo kind with
   | none => (s, badOp)
   | some (rx, sender, outerBase, innerBase) =>
-    let lie := scope == "lie" && kind == "rmsg"
+    let lie := scope == "lie" && (kind == "rmsg" || kind == "rclose")
     -- symbolic headers after mutation
     let outerM := if lie then some outerBase else applyMut outerBase mutArgs
     let innerM := match innerBase with
@@ -214,6 +229,8 @@ def evalPkt (s : St) (kind src scope : String) (mutArgs : List String) (impl : S
       let pkt := Pkt.mk h1 l1 innerPkt
       let effs := readOutside false pkt
       let rs := if effs.any (fun e => match e with | .control _ => true | _ => false) && !s.ctrlDone then ["B"] else []
+      -- closing the last tunnel to X disestablishes the relay record it was reached through (on R's hostinfo)
+      let rs := if rx == 0 && effs.any (fun e => match e with | .close 3 => true | _ => false) then rs ++ ["R"] else rs
       let s' := advance s rx src effs
       let model := render s' rx sender src effs rs
       let anyAuth := (Spec.Outside.levels pkt).any (fun hl => hl.2.authOK)
@@ -242,10 +259,65 @@ def evalPkt (s : St) (kind src scope : String) (mutArgs : List String) (impl : S
       (s', { model := model, verdict := andVerdict verdict (if rx == 0 then relayOnlyVerdict impl false else "ok"), tag := tag })
 
 
+-- concrete underlay addresses of the cluster (harness/relaynet): node i is 192.0.2.(i+1):4242
+def v4 (a b c d : Nat) : Nebula.Net.Addr := { fam := .v4, val := ((a * 256 + b) * 256 + c) * 256 + d }
+def srcAddr (src : String) (sender : Nat) : Nebula.ViaRemote.AddrPort :=
+  if src == "other" then (v4 198 51 100 7, 999)
+  else if src == "mynet" then (v4 10 0 0 77, 4242)
+  else (v4 192 0 2 (sender + 1), 4242)
+def prefList (p : String) : List Nebula.Net.Prefix :=
+  if p == "relay" then [{ addr := v4 192 0 2 3, len := 32 }]
+  else if p == "peer" then [{ addr := v4 192 0 2 2, len := 32 }]
+  else if p == "other" then [{ addr := v4 198 51 100 0, len := 24 }]
+  else if p == "all" then [{ addr := v4 192 0 2 0, len := 24 }, { addr := v4 198 51 100 0, len := 24 }]
+  else []
+def maskLh (s : String) : String := (s.replace " lh=0" " lh=x").replace " lh=1" " lh=x"
+
+/-- `hsdup … B`: B's stage-0 packet (direct tunnel, A responder) arrives again — through the relay in a
+fresh relay frame (`relay` / `flip`) or bare from `src` (`direct`). ErrAlreadySeen → `SetRemoteIfPreferred`
+(model `Nebula.ViaRemote.setRemoteIfPreferred`) → cached response re-sent the way the packet came in. -/
+def evalHsdupB (s : St) (src mode : String) (impl : String) : St × Out :=
+  if !s.live.contains 1 then (s, { model := "no-tunnel", tag := "triv:hsdup-no-tunnel" }) else
+  let relayed := mode != "direct"
+  let curSym := s.curOf 0 1
+  let hostR : Nebula.ViaRemote.HostR :=
+    { remote := some (srcAddr curSym 1), lastRoamRemote := (lookupS s.lastRoam 1).map (srcAddr · 1) }
+  let via : Nebula.ViaRemote.Via := { udp := srcAddr src (if relayed then 2 else 1), isRelayed := relayed }
+  let (hostR', changed) := Nebula.ViaRemote.setRemoteIfPreferred (prefList s.pref) hostR via
+  let moved := changed && hostR'.remote != hostR.remote
+  if relayed then
+    let oh : SymHdr := { type := 1, sub := 1, idx := "relay" }
+    let (h2, l2) := mkLook s 0 true src { type := 0, sub := 0, idx := "zero" } { type := 0, sub := 0, idx := "zero" } 1 none
+    let (h1, l1) := mkLook s 0 false src oh oh 2 (some { type := nebula_TerminalType, peer := 3 })
+    let effs := readOutside false (.mk h1 l1 (some (.mk h2 l2 none)))
+    let reached := effs.any (fun e => match e with | .handshakeIn => true | _ => false)
+    let dup := reached && mode == "relay"
+    let s' := advance s 0 src effs
+    let s' := if dup then { s' with bRelayTo := true, recDis := false } else s'
+    let extra := if dup then ["1/1>" ++ replyNode s' 0 3] else []
+    -- by `relayed_via_keeps_remote` the model never moves B here; `moved` is false
+    let effs' := if dup && moved then effs ++ [Effect.roam 1] else effs
+    let model := render s' 0 2 src effs' ((if dup && !s.bRelayTo then ["B"] else []) ++ (if dup && s.recDis then ["R"] else [])) extra
+    (s', { model := model, verdict := relayOnlyVerdict impl true ["X", "B"],
+           tag := if !reached then "hsdupB:not-reached" else if dup then s!"hsdupB:already-seen-pref-{s.pref}" else "hsdupB:garbled" })
+  else
+    let (h1, l1) := mkLook s 0 false src { type := 0, sub := 0, idx := "zero" } { type := 0, sub := 0, idx := "zero" } 1 none
+    let effs := readOutside false (.mk h1 l1 none)
+    let reached := effs.any (fun e => match e with | .handshakeIn => true | _ => false)
+    let effs' := if reached && moved then effs ++ [Effect.roam 1] else effs
+    let s' := advance s 0 src effs'
+    -- the fresh hostinfo of the duplicate handshake learns the source address (shared remote list)
+    let s' := if reached then { s' with front := setS s'.front 1 src } else s'
+    let node := if src == "own" then "1" else "-1"
+    let extra := if reached then (if moved then ["4/0>" ++ node] else []) ++ ["0/0>" ++ node] else []
+    let model := maskLh (render s' 0 1 src effs' [] extra)
+    (s', { model := model, verdict := "ok",
+           tag := if !reached then "hsdupB:direct-not-reached" else if moved then "hsdupB:direct-moved-to-preferred" else "hsdupB:direct-kept" })
+
 def step (s : St) (args : List String) (impl : String) : St × Out :=
   match args with
-  | ["reset", _, acc, snd] =>
-    ({ accept := acc == "always", sendErr := snd == "always", ready := true },
+  | "reset" :: _ :: acc :: snd :: prefArg =>
+    ({ accept := acc == "always", sendErr := snd == "always", ready := true, pref := prefArg.headD "none" },
      { model := "ok 1 xr=0",
        verdict := if impl == "ok 1 xr=1" then "bad relayed-via-recorded-as-remote handshake-completion" else expect "reset" impl "ok 1 xr=0",
        tag := "triv:reset" })
@@ -254,7 +326,9 @@ def step (s : St) (args : List String) (impl : String) : St × Out :=
     -- a replay is the second injection of the same datagram: the first (authentic) one happens first
     let s0 := if mutArgs == ["replay"] then (evalPkt s kind src scope ["none"] impl).1 else s
     evalPkt s0 kind src scope mutArgs impl
-  | ["hsdup", src, mode] =>
+  | ["hsdup", src, mode, "B"] =>
+    if !s.ready then (s, badOp) else evalHsdupB s src mode impl
+  | "hsdup" :: src :: mode :: _ =>
     if !s.ready then (s, badOp) else
     -- outer level: a fresh relay frame sealed by R (authentic on R's tunnel); inner level: X's stage-0
     -- handshake packet (type Handshake: unauthenticated by design, handled by the handshake manager)
@@ -266,12 +340,26 @@ def step (s : St) (args : List String) (impl : String) : St × Out :=
     -- a byte-identical stage-0 of a completed tunnel (ErrAlreadySeen): the cached response is sent again,
     -- through the relay it came in on; a garbled one fails Noise and is dropped
     let reached := effs.any (fun e => match e with | .handshakeIn => true | _ => false)
-    let extra := if reached && mode == "relay" then ["1/1>" ++ replyNode s' 0 3] else []
-    let model := render s' 0 2 src effs [] extra
+    let dup := reached && mode == "relay"
+    let extra := if dup then ["1/1>" ++ replyNode s' 0 3] else []
+    -- no tunnel to X any more (closed): the replayed stage-0 builds a new relayed tunnel (that this is possible
+    -- is C10's subject) and the relay record it arrived on is marked Established again
+    let fresh := dup && !s.live.contains 3 && !s.xGhost
+    let s' := if fresh then { s' with xGhost := true } else s'
+    -- sendHandshakeResponse through a relay marks the relay record Established again
+    let rsR := if dup && s.recDis then ["R"] else []
+    let s' := if dup then { s' with recDis := false } else s'
+    let model := render s' 0 2 src effs rsR extra 0 (if fresh then ["+X"] else []) fresh
     (s', { model := model, verdict := relayOnlyVerdict impl true,
-           tag := if !reached then "hsdup:not-reached" else if mode == "relay" then "hsdup:already-seen" else "hsdup:garbled" })
+           tag := if !reached then "hsdup:not-reached" else if fresh then "hsdup:reestablish-over-relay"
+                  else if mode == "relay" then "hsdup:already-seen" else "hsdup:garbled" })
   | ["reply"] =>
     if !s.ready then (s, badOp) else
+    if !s.live.contains 3 && !s.xGhost then
+      -- no tunnel to X: the packet is cached behind a (new) pending handshake, nothing leaves
+      let model := render s 0 0 "own" [] [] [] 0 [] false (!s.xPending)
+      ({ s with xPending := true }, { model := model, verdict := relayOnlyVerdict impl true, tag := "reply:no-tunnel" })
+    else
     -- sendInsideMessage relay branch: X has no direct remote, so the packet leaves as a relay frame to R
     let model := render s 0 0 "own" [] [] ["1/1>" ++ replyNode s 0 3] 1
     (s, { model := model, verdict := relayOnlyVerdict impl true, tag := "reply:relayed" })
